@@ -108,6 +108,29 @@ def table_diff(w, m, got, exp=None):
     return T.text_table_diff(got, exp)
 
 
+def _scribble(w, hdr):
+    """The caller owns the header dict it was handed: it edits it (the usual 'read the header, tweak it, write a
+    derived file').  Later reads of the SAME file must not see those edits."""
+    if not isinstance(hdr, dict):
+        return
+    try:
+        for k in list(hdr):
+            v = hdr[k]
+            if isinstance(v, list):
+                del v[:]
+            elif isinstance(v, dict):
+                v.clear()
+        for k in [k for k in hdr if not (isinstance(k, str) and k.startswith("_"))][:2]:
+            del hdr[k]
+        hdr["_SIZE"] = -7
+        hdr["_DTYPE"] = [("zz", "|i1")]
+        hdr["_DELIM"] = "#"
+        hdr["edited_by_caller"] = True
+        w.run.fault("caller_edited_a_header_dict_it_was_handed")
+    except Exception:
+        pass
+
+
 def check_header(w, m, hdr, oid, feats):
     run = w.run
     run.checks += 1
@@ -565,6 +588,8 @@ def op_read(w, op, mods):
             return
         if hdr is not None:
             check_header(w, m, hdr, "rec.read.header", feats)
+    if hdr is not None:
+        _scribble(w, hdr)
 
 
 def op_header(w, op, mods):
@@ -596,6 +621,7 @@ def op_header(w, op, mods):
     run.event(op.get("c", 0), "header", p, "ok", entry)
     if w.prop in ("C01", "C03", "C04"):
         check_header(w, m, hdr, "rec.header", feats)
+    _scribble(w, hdr)
 
 
 # ------------------------------------------------------------------ writer handles (C03)
